@@ -17,7 +17,8 @@ Cb(kind, as, pass, route, during) == [kind |-> kind, async |-> as, pass |-> pass
 Valid(c) == /\ (c.route \in {"resource", "resource2"} => ~c.pass)
             /\ (c.route = "ctxtd" => c.async /\ c.pass)
             /\ (c.kind = "reraise" => c.pass /\ ~c.async /\ c.route = "direct" /\ ~c.during)
-Init == /\ prog = [cbs |-> <<>>, ending |-> "return", root |-> TRUE, ambient |-> FALSE, cancelDuring |-> 0]
+\* bogus: inside the block an add_resource(..., teardown_callback=spy) is rejected with ResourceConflict; nothing is registered by it
+Init == /\ prog = [cbs |-> <<>>, ending |-> "return", root |-> TRUE, ambient |-> FALSE, cancelDuring |-> 0, bogus |-> FALSE]
         /\ stage = "gen" /\ stack = <<>> /\ running = 0 /\ cancelled = FALSE /\ raised = {} /\ anyCancel = FALSE
         /\ nextId = 1 /\ outcome = "" /\ mon = M!MonInit
 AddCb == /\ stage = "gen" /\ Len(prog.cbs) < MaxCbs
@@ -27,10 +28,11 @@ AddCb == /\ stage = "gen" /\ Len(prog.cbs) < MaxCbs
          /\ UNCHANGED <<stage, stack, running, cancelled, raised, anyCancel, nextId, outcome, mon>>
 \* the block is entered, the callbacks are registered in order, the block ends
 Start == /\ stage = "gen"
-         /\ \E e \in {"return", "exc", "base", "cancel"}, root \in BOOLEAN, amb \in BOOLEAN, cd \in 0..Len(prog.cbs) :
+         /\ \E e \in {"return", "exc", "base", "cancel"}, root \in BOOLEAN, amb \in BOOLEAN, cd \in 0..Len(prog.cbs), bg \in BOOLEAN :
               /\ (cd # 0 => (prog.cbs[cd].async /\ e # "cancel"))
               /\ (amb => e = "return")
-              /\ prog' = [prog EXCEPT !.ending = e, !.root = root, !.ambient = amb, !.cancelDuring = cd]
+              /\ (bg => e \in {"return", "exc"} /\ root /\ ~amb /\ cd = 0)
+              /\ prog' = [prog EXCEPT !.ending = e, !.root = root, !.ambient = amb, !.cancelDuring = cd, !.bogus = bg]
          /\ stage' = "run"
          /\ stack' = [i \in 1..Len(prog.cbs) |-> i]
          /\ nextId' = Len(prog.cbs) + 1
